@@ -6,6 +6,7 @@ import io
 import json
 import logging
 import os
+import re
 import sys
 
 from jinja2 import FileSystemLoader, Environment
@@ -378,8 +379,9 @@ def make_app(**params):
     ]
     if base_url != '/':
         prefix = base_url.rstrip('/')
+        # Routes are regular expressions: the prefix is to match literally
         handlers = [
-            (prefix + path, cls, params)
+            (re.escape(prefix) + path, cls, params)
             for (path, cls, params) in handlers
         ]
     else:
